@@ -802,6 +802,12 @@ func (c *specCtx) callExpr(x *ast.CallExpr) (tv, error) {
 			return tv{a.Term, types.NewPointer(T)}, nil
 		}
 		return tv{Term{fmt.Sprintf("(ipay_I %s)", a.S), SInt}, types.NewPointer(T)}, nil
+	case "as_slice":
+		a, err := c.tr(args[0])
+		if err != nil {
+			return tv{}, err
+		}
+		return tv{Term{fmt.Sprintf("(ipay_V %s)", a.S), SV}, nil}, nil
 	case "as_bytes":
 		// as_bytes(x): the []byte held by interface value x
 		a, err := c.tr(args[0])
